@@ -100,23 +100,30 @@ pub struct Sink {
 	pub mismatches: u64,
 	pub checked: u64,
 	limit: u64,
+	per_key: std::collections::HashMap<String, u64>,
 }
 
 impl Sink {
 	pub fn new() -> Self {
-		Self { mismatches: 0, checked: 0, limit: 50 }
+		Self { mismatches: 0, checked: 0, limit: 400, per_key: std::collections::HashMap::new() }
 	}
 	pub fn line(&self, v: &Value) {
 		let stdout = std::io::stdout();
 		let mut l = stdout.lock();
 		let _ = writeln!(l, "{}", v);
 	}
+	/// at most 2 lines per key (every key is reported), `limit` lines in total
+	fn admit(&mut self, key: &str) -> bool {
+		self.mismatches += 1;
+		let n = self.per_key.entry(key.to_string()).or_insert(0);
+		*n += 1;
+		*n <= 2 && (self.per_key.len() as u64) <= self.limit
+	}
 	/// record a comparison; emits a mismatch line when `exp != act`
 	pub fn cmp(&mut self, key: &str, ctx: impl FnOnce() -> Value, exp: &Value, act: &Value) -> bool {
 		self.checked += 1;
 		if exp != act {
-			self.mismatches += 1;
-			if self.mismatches <= self.limit {
+			if self.admit(key) {
 				self.line(&json!({"kind":"mismatch","key":key,"ctx":ctx(),"expected":exp,"actual":act}));
 			}
 			return false;
@@ -124,8 +131,7 @@ impl Sink {
 		true
 	}
 	pub fn mismatch(&mut self, key: &str, detail: Value) {
-		self.mismatches += 1;
-		if self.mismatches <= self.limit {
+		if self.admit(key) {
 			self.line(&json!({"kind":"mismatch","key":key,"ctx":detail}));
 		}
 	}
